@@ -30,7 +30,7 @@ Lemma ctr_inj b1 b2 :
   pos_count b1 = pos_count b2 /\ seen_stack b1 = seen_stack b2.
 Proof. unfold ctr; intro H; inversion H; auto. Qed.
 
-Definition is_some {A} (o : option A) : bool := match o with Some _ => true | None => false end.
+Definition opt_is_some {A} (o : option A) : bool := match o with Some _ => true | None => false end.
 
 Section WithTable.
 Variable T : ztable.
@@ -202,10 +202,10 @@ Ltac bstep H E :=
 Lemma apply_std_ctr b f t cap b' :
   apply_std T b f t cap = Ok b' ->
   exists p c, bget b f = Some (p, c) /\
-    ctr b' = ((if piece_eqb p Pawn || is_some cap then 0 else hd 0 (hm_stack b) + 1) :: hm_stack b,
+    ctr b' = ((if piece_eqb p Pawn || opt_is_some cap then 0 else hd 0 (hm_stack b) + 1) :: hm_stack b,
               fullmove b + 1, pos_count b, seen_stack b)
     /\ fullmove b <> FULLMOVE_MAX
-    /\ (piece_eqb p Pawn || is_some cap = false -> hm_stack b <> [] /\ hd 0 (hm_stack b) <> U8_MAX).
+    /\ (piece_eqb p Pawn || opt_is_some cap = false -> hm_stack b <> [] /\ hd 0 (hm_stack b) <> U8_MAX).
 Proof.
   unfold apply_std. destruct (bremove T b f) as [[[p c] b1]|] eqn:Eq1; [|discriminate].
   destruct (bremove_ctr _ _ _ _ Eq1) as [C1 G1].
@@ -220,11 +220,11 @@ Proof.
     apply inc_fullmove_ok in Eq4. destruct Eq4 as [F4 C4].
     inversion Eq3; subst a. rewrite H, Eq6, Eq5, C4. cbn [ctr reset_halfmove push_halfmove set_hm hm_stack fullmove pos_count seen_stack].
     unfold ctr in C1, C2. inversion C1. inversion C2.
-    rewrite Bool.orb_true_r. cbn [is_some].
+    rewrite Bool.orb_true_r. cbn [opt_is_some].
     cbn [reset_halfmove push_halfmove set_hm hm_stack fullmove pos_count seen_stack] in F4.
     repeat split; try congruence; intro; discriminate.
   - destruct cap as [cp|]; cbn [option_map opt_pc_eqb negb] in H; [discriminate H|].
-    destruct (piece_eqb p Pawn) eqn:EP; cbn [orb is_some].
+    destruct (piece_eqb p Pawn) eqn:EP; cbn [orb opt_is_some].
     + bstep H Eq3. bstep H Eq4. bstep H Eq5. bstep H Eq6.
       apply unwrap_ok in H. apply put_ctr in H. apply lose_rights_ctr in Eq6. apply push_ep_ctr in Eq5.
       apply inc_fullmove_ok in Eq4. destruct Eq4 as [F4 C4].
@@ -258,10 +258,10 @@ Proof. destruct a as [x|]; cbn; intro H; [|discriminate H]. apply pc_eqb_eq in H
 Lemma apply_promo_ctr b f t cap pp b' :
   apply_promo T b f t cap pp = Ok b' ->
   exists p c, bget b f = Some (p, c) /\
-    ctr b' = ((if piece_eqb p Pawn || is_some cap then 0 else hd 0 (hm_stack b) + 1) :: hm_stack b,
+    ctr b' = ((if piece_eqb p Pawn || opt_is_some cap then 0 else hd 0 (hm_stack b) + 1) :: hm_stack b,
               fullmove b + 1, pos_count b, seen_stack b)
     /\ fullmove b <> FULLMOVE_MAX
-    /\ (piece_eqb p Pawn || is_some cap = false -> hm_stack b <> [] /\ hd 0 (hm_stack b) <> U8_MAX).
+    /\ (piece_eqb p Pawn || opt_is_some cap = false -> hm_stack b <> [] /\ hd 0 (hm_stack b) <> U8_MAX).
 Proof.
   unfold apply_promo. intro H. bstep H Eq1.
   destruct (apply_std_ctr _ _ _ _ _ Eq1) as (p & c & G & C & R).
@@ -323,7 +323,7 @@ Qed.
 Definition mover_is_pawn (mover : option (piece * color)) : bool :=
   match mover with Some (Pawn, _) => true | _ => false end.
 Definition mv_resets (mover : option (piece * color)) (m : cmove) : bool :=
-  mover_is_pawn mover || is_some (mv_captures m).
+  mover_is_pawn mover || opt_is_some (mv_captures m).
 
 Theorem apply_move_ctr m b b' :
   apply_move T m b = Ok b' ->
@@ -343,10 +343,10 @@ Proof.
     replace (match p with Pawn => true | _ => false end) with (piece_eqb p Pawn) by (destruct p; reflexivity).
     exact R.
   - destruct (apply_ep_ctr _ _ _ _ H) as (c & G & C & F). exists Pawn, c. split; [assumption|].
-    rewrite G. unfold mv_resets; cbn [mover_is_pawn mv_captures is_some orb].
+    rewrite G. unfold mv_resets; cbn [mover_is_pawn mv_captures opt_is_some orb].
     repeat split; try assumption; intro; discriminate.
   - destruct (apply_castle_ctr _ _ _ _ H) as (c & G & C & F & N1 & N2). exists King, c. split; [assumption|].
-    rewrite G. unfold mv_resets; cbn [mover_is_pawn mv_captures is_some orb].
+    rewrite G. unfold mv_resets; cbn [mover_is_pawn mv_captures opt_is_some orb].
     repeat split; assumption.
 Qed.
 
